@@ -317,6 +317,13 @@ func checkGateFirst(c *Ctx, r *Report, eng *TplEngine) {
 
 func mustachePlaceholder(n *hast.MustacheStatement) string {
 	c := n.Expression.Canonical()
+	for _, prm := range n.Expression.Params {
+		if pe, ok := prm.(*hast.PathExpression); ok {
+			c += " " + pe.Original
+		} else {
+			c += " " + prm.String()
+		}
+	}
 	var sb strings.Builder
 	sb.WriteString("M_")
 	for _, ch := range c {
